@@ -69,6 +69,13 @@ fn check_history(lines: &[Line], rec: &mut Rec) -> Verdict {
             Gate::Pass(f) | Gate::StarInField(f) => Some(f.clone()),
             _ => None,
         };
+        // a payload field above 384 bytes exceeds the capacity whatever else is wrong with the line (the
+        // no-allocator build may notice that before it gets to the checksum: any error category will do)
+        if let Gate::BadChecksum(f) = &g {
+            if f.payload.len() > CAP_SENTENCE {
+                sentence_level = true;
+            }
+        }
         let mut prospective = held;
         if let Some(f) = &fields {
             let first = f.fragment_number == 1 && f.fragment_number < f.num_fragments;
@@ -374,6 +381,11 @@ pub fn run(ctx: &mut Ctx) {
     }
     for len in [380usize, 383, 384, 385, 386, 400] {
         let p: Vec<u8> = mix.bytes(len).iter().map(|b| ALPHABET[(*b & 63) as usize]).collect();
+        // the same with a wrong checksum: above the capacity the no-allocator build may fail before it
+        // looks at the checksum (any error will do); at or below it must report the checksum like the others
+        let mut bad = build::Spec::simple(1, 1, None, b"A", &p, 0);
+        bad.cks = build::Cks::Delta(0x21);
+        ctx.sweep_case("payload-capacity-edge", &NONE, &Input::History { lines: vec![Line::new(bad.render(), false), Line::new(build::line(1, 1, None, b"A", b"15", 0), false)] }, check);
         for decode in [false, true] {
             ctx.sweep_case("payload-capacity-edge", &NONE, &Input::History { lines: vec![Line::new(build::line(1, 1, None, b"A", &p, 0), decode), Line::new(build::line(2, 1, None, b"A", &p, 0), decode), Line::new(build::line(2, 2, None, b"A", b"0", 0), decode)] }, check);
         }
